@@ -21,8 +21,8 @@ import PolyVerif.Model.Obj
     c05.holds.resave_mixed_shapes …   → same predicate; texts with a group that mixes corner shapes
     c05.holds.fs_materials <groups> <groups'> → SameMaterials: obj.Save / SaveAll to disk (with .mtl) then obj.Load gives every
                                         triangle the material record it had (desc = name|Ns|Kd|map_Kd)
-    c05.holds.reload <result> <result'> → RoundTripsCarry: the second load (of the saved text) returns the scene of the
-                                        first load (obj_reload); emitted when every group has a face
+    c05.holds.reload <result> <result'> → RoundTrips (strict): the second load (of the saved text) returns the scene of the
+                                        first load (obj_reload_strict); emitted when every group has a face
 -/
 namespace Driver.C05
 open PolyVerif PolyVerif.Obj
@@ -379,8 +379,20 @@ def resultHex (gs : List (String × Mesh S)) (libs : List String) : String :=
 def readText (t : String) : Except Err (List (String × Mesh S) × List String) :=
   (readObj pcStr (lexText t)).map fun (gs, libs) => (gs.map toMesh, libs)
 
-/-- print-then-parse of a scalar (identity on float32 values with a short exact expansion) -/
-def rtF (x : S) : S := (parseF32 (printF x)).getD x
+/-- print-then-parse of a scalar.  The fallback value is never used by an oracle: every oracle that applies
+    `rtF` first checks `scalarsOk` (all scalars of the source scene print-then-parse) and answers `false`
+    otherwise. -/
+def rtF (x : S) : S := match parseF32 (printF x) with
+  | some y => y
+  | none => x
+
+def scalarOk (x : S) : Bool := (parseF32 (printF x)).isSome
+
+def scalarsOk (ms : List (String × Mesh S)) : Bool :=
+  ms.all fun p =>
+    (optList p.2.pos).all (fun v => scalarOk v.x && scalarOk v.y && scalarOk v.z) &&
+    (optList p.2.nrm).all (fun v => scalarOk v.x && scalarOk v.y && scalarOk v.z) &&
+    (optList p.2.uv).all (fun v => scalarOk v.x && scalarOk v.y)
 
 /-- `ngroups (name ntris nranges (desc count)…)…` -/
 def matGroups? : List String → Option (List (String × Nat × List (String × Nat)) × List String)
@@ -414,11 +426,11 @@ def handle (op : String) (args : List String) : Option String := do
   | "c05.holds.roundtrip" | "c05.holds.roundtrip_matless_after_mat" | "c05.holds.roundtrip_empty_mesh_not_last" =>
       let ((_, ms), r) ← scene? args
       let ((gs, _), _) ← result? r
-      pure (boolStr (RoundTrips rtF ms gs))
+      pure (boolStr (scalarsOk ms && RoundTrips rtF ms gs))
   | "c05.holds.roundtrip_carry" =>
       let ((_, ms), r) ← scene? args
       let ((gs, _), _) ← result? r
-      pure (boolStr (RoundTripsCarry rtF none ms gs))
+      pure (boolStr (scalarsOk ms && RoundTripsCarry rtF none ms gs))
   | "c05.holds.fs_materials" =>
       let (want, r) ← matGroups? args
       let (got, _) ← matGroups? r
@@ -426,7 +438,7 @@ def handle (op : String) (args : List String) : Option String := do
   | "c05.holds.reload" =>
       let ((ms, _), r) ← result? args
       let ((gs, _), _) ← result? r
-      pure (boolStr (RoundTripsCarry rtF none ms gs))
+      pure (boolStr (scalarsOk ms && RoundTrips rtF ms gs))
   | "c05.holds.resave" | "c05.holds.resave_mixed_shapes" =>
       match args with
       | [a, b] =>
